@@ -508,6 +508,9 @@ impl super::DebugSession {
         }
 
         self.begin_running();
+        // a new life of the debuggee: its stops and its exit must be announced again
+        self.terminated = false;
+        self.exit_code = None;
 
         let dbg = self
             .debugger
